@@ -2,3 +2,4 @@ import DefconModel.Drivers.Notify
 import DefconModel.Drivers.Layer
 import DefconModel.Drivers.GlyphOrder
 import DefconModel.Drivers.Kern
+import DefconModel.Drivers.NameSort
